@@ -58,7 +58,9 @@ CONFIGS_THOROUGH = CONFIGS_QUICK + [(1000, 0, 0), (-1, 1, 64)]
 PROTOS = ["scgi", "fcgi", "http10", "http11", "http10ka", "http11ka"]
 MODES = ["normal", "nogzip", "raw", "async", "asyncraw"]
 TOKEN = "abcdefghijklmnopqrstuvwxyzABCDEFGHIJKLMNOPQRSTUVWXYZ0123456789-_"
-HDR_POOL = ["X-Dup", "x-dup", "X-DUP", "X-dUp", "Cache-Control", "cache-control", "CACHE-CONTROL", "X-Other", "x-other", "X-Dupe", "X-Du"]
+HDR_POOL = ["X-Dup", "x-dup", "X-DUP", "X-dUp", "Cache-Control", "cache-control", "CACHE-CONTROL", "X-Other", "x-other", "X-Dupe", "X-Du",
+            # the ends of the range ascii_to_lower folds, and their neighbours (which must stay distinct names)
+            "X-AZ", "x-az", "X-aZ", "X-@[", "X-`{"]
 
 
 def gen_payload(seed, n):
